@@ -62,6 +62,13 @@ def gen_cases(tier, seed):
             yield dict(base, zero_weight=True, R=max(2, base["R"]), printitn=[0, 1][i % 2], cseed=int(seed) * 67867967 + 300000 + next(cs))
     yield from _gen_overfit(tier, seed, cs)
     yield from _gen_single_support(tier, seed, cs)
+    rng3 = gen.rng_for(seed + 9, ID, tier)
+    for i in range(24 if tier == "quick" else 200):
+        N = int(rng3.integers(2, 4))
+        yield {"w": "apr", "alg": ["mu", "mu", "pdnr"][i % 3], "rep": ["dense", "sparse"][(i // 3) % 2], "shape": [int(s) for s in rng3.integers(3, 5, size=N)], "R": 2,
+               "dseed": int(rng3.integers(0, 2 ** 31)), "empty_slice": False, "zero_row": False, "maxinneriters": 10, "stoptol": 1e-14, "precompinds": True,
+               "inexact": True, "lbfgsMem": 3, "kappa": 0.01, "printitn": 0, "stoptime": None, "store": None, "good_guess": False, "restart": True,
+               "only_maxiters": [2, 3], "cseed": int(seed) * 67867967 + 500000 + next(cs)}
     # the small tolerances of the three solvers at the ends of their ranges (exactly zero included), on data with an empty slice and
     # guesses with a zero row -- where exact zeros of the model meet the guarded divisions
     rng2 = gen.rng_for(seed + 7, ID, tier)
@@ -159,6 +166,13 @@ def run_case(case, ctx):
         ctx.feat(single_support=True, big=("1e3-" if big < 1000 else "1e3+"))
     alg, rep = case["alg"], case["rep"]
     store = case.get("store")
+    if case.get("restart"):
+        # a warm start from the algorithm's own (nearly) converged result: "at least as likely as the guess" is sharp here, and the
+        # zero-repair step of MU must leave admissible zeros alone
+        try:
+            M0 = _quiet(ttb.cp_apr, ttb.tensor(X.copy()), R, init=M0.copy(), algorithm=case["alg"], maxiters=150, stoptol=1e-10, printitn=0, printinneritn=0)[0]
+        except AssertionError:
+            return
     if case.get("good_guess"):
         # a guess that is already close to the generating model: "at least as likely as the guess" is then a sharp requirement
         M0 = ttb.ktensor([f * (1.0 + 0.02 * rng.standard_normal(f.shape)) for f in Ktrue.factor_matrices], Ktrue.weights.copy())
@@ -166,7 +180,7 @@ def run_case(case, ctx):
     if rep == "sparse":
         nnz = int(np.count_nonzero(X))
         D = gen.mk_sptensor(ttb, X if not store else X.astype(store), gen.stored_order(rng, nnz, "shuffled"), dtype=(np.dtype(store) if store else None))
-    ctx.feat(store=str(store), good_guess=bool(case.get("good_guess")), overfit=bool(case.get("Rtrue")))
+    ctx.feat(store=str(store), good_guess=bool(case.get("good_guess")), overfit=bool(case.get("Rtrue")), restart=bool(case.get("restart")))
     ddig = state_digest(D)
     ctx.feat(alg=alg, rep=rep, zero_row=case["zero_row"], empty_slice=case["empty_slice"], R=R, N=N, precompinds=case["precompinds"],
              inexact=case["inexact"], lbfgsMem=case["lbfgsMem"], maxinneriters=case["maxinneriters"])
